@@ -31,7 +31,7 @@ def encodings(dtype):
     return [(0, None), ('mask', 0), ('mask', 255), ('mask', 'random'), ('alpha', 0), ('alpha', 255), ('alpha', 'random')]
 
 
-def write_encoded(path, grid, arr, valid, dtype, enc, hidden, rng):
+def write_encoded(path, grid, arr, valid, dtype, enc, hidden, rng, south_up=False):
     a = arr.astype('float64').copy()
     nb = a.shape[0]
     if hidden == 'random':
@@ -43,21 +43,21 @@ def write_encoded(path, grid, arr, valid, dtype, enc, hidden, rng):
     if isinstance(enc, str) and enc.startswith('f64:'):
         nd = float(enc[4:])
         a[:, ~valid] = nd
-        rasters.write_tif(path, grid, a, dtype='float64', nodata=nd)
+        rasters.write_tif(path, grid, a, dtype='float64', nodata=nd, south_up=south_up)
     elif enc == 'nan':
         a[:, ~valid] = np.nan
-        rasters.write_tif(path, grid, a, dtype=dtype, nodata=float('nan'))
+        rasters.write_tif(path, grid, a, dtype=dtype, nodata=float('nan'), south_up=south_up)
     elif enc == 'mask':
         for b in range(nb):
             a[b][~valid] = hv[~valid]
-        rasters.write_tif(path, grid, a, dtype=dtype, nodata=None, mask=valid)
+        rasters.write_tif(path, grid, a, dtype=dtype, nodata=None, mask=valid, south_up=south_up)
     elif enc == 'alpha':
         for b in range(nb):
             a[b][~valid] = hv[~valid]
-        rasters.write_tif(path, grid, a, dtype=dtype, nodata=None, alpha=valid)
+        rasters.write_tif(path, grid, a, dtype=dtype, nodata=None, alpha=valid, south_up=south_up)
     else:
         a[:, ~valid] = enc
-        rasters.write_tif(path, grid, a, dtype=dtype, nodata=enc)
+        rasters.write_tif(path, grid, a, dtype=dtype, nodata=enc, south_up=south_up)
 
 
 def gen_case(run, i):
@@ -163,7 +163,70 @@ def run(run: common.Run):
                          f'same (source encoded {enc_s} hidden {hid_s}; reference {enc_r} hidden {hid_r})',
                          signature=dict(kind='encoding-dependence', what=bad[0]))
     rewrite_leg(run, tmp)
+    orientation_leg(run, tmp)
     read_logic(run, tmp)
+
+
+def orientation_leg(run, tmp):
+    """
+    Mask encodings x storage orientation: the same logical pair with the source, or the reference, stored south-up (homonim
+    then reads it through a north-up WarpedVRT) in every encoding; results must equal those of the north-up NaN-nodata pair
+    bit for bit (dyadic grids with power-of-two pixel sizes: the flipped transform is exact).
+    """
+    import warnings
+    from homonim import RasterCompare
+    pow2 = lambda n: n > 0 and n & (n - 1) == 0
+    n = 3 if run.quick() else 24
+    for k in range(n):
+        rng = run.rng(f'orient{k}')
+        for _ in range(200):
+            src, ref = rasters.pair_geometry(rng, 'dyadic', 'auto', max_src=22, margin=(1, 3))
+            if pow2(src.px) and pow2(ref.px):
+                break
+        else:
+            continue
+        dtype = ['float32', 'uint8'][k % 2]
+        nb = 1 if dtype == 'float32' else rng.choice([1, 3])
+        model = MODELS[k % 3]
+        s = np.array([[[rng.randint(20, 200) for _ in range(src.w)] for _ in range(src.h)] for _ in range(nb)], float)
+        r = np.array([[[rng.randint(30, 150) for _ in range(ref.w)] for _ in range(ref.h)] for _ in range(nb)], float)
+        sv, rv = holes(rng, src.h, src.w), holes(rng, ref.h, ref.w)
+        encs = [('nan', None), (-9999.0, None), ('mask', 0.0), ('mask', 'random')] if dtype == 'float32' else \
+            [(0, None), ('mask', 255), ('mask', 'random'), ('alpha', 0), ('alpha', 'random')]
+        base = None
+        variants = [(encs[0], False, encs[0], False)] + [(e, True, encs[0], False) for e in encs] + [(encs[0], False, e, True) for e in encs]
+        for (enc_s, su_s, enc_r, su_r) in variants:
+            case = dict(i=880_000 + k, op='orientation x encoding', model=model, dtype=dtype, nb=nb, src=src.to_dict(), ref=ref.to_dict(),
+                        src_encoding=[str(x) for x in enc_s], src_south_up=su_s, ref_encoding=[str(x) for x in enc_r], ref_south_up=su_r)
+            sp, rp = tmp / 'c08_os.tif', tmp / 'c08_or.tif'
+            write_encoded(sp, src, s, sv, dtype, enc_s[0], enc_s[1], rng, south_up=su_s)
+            write_encoded(rp, ref, r, rv, dtype, enc_r[0], enc_r[1], rng, south_up=su_r)
+            try:
+                res = fusion.run_fuse(sp, rp, tmp / 'c08_oo.tif', model=model, kernel_shape=(3, 3), param=True, threads=1)
+                with warnings.catch_warnings():
+                    warnings.simplefilter('ignore')
+                    with RasterCompare(sp, rp) as cmp:
+                        stats = cmp.process(threads=1, max_block_mem=100)
+            except Exception as ex:
+                run.fail(case, f'raised {type(ex).__name__}: {ex}', signature=dict(kind='raises'))
+                continue
+            run.evaluations += 1
+            run.hist[f"orientation leg: {'source' if su_s else 'reference' if su_r else 'neither'} south-up, encoding={(enc_s if su_s else enc_r)[0]}"] += 1
+            cur = (res.corr, res.corr_mask, res.param, res.param_masks,
+                   {k_: (v['n'], np.float64(v['r2']).tobytes(), np.float64(v['rmse']).tobytes()) for k_, v in stats.items()})
+            if base is None:
+                base = cur
+                continue
+            run.nontrivial.add(('orient', k, str(enc_s), su_s, str(enc_r), su_r))
+            names = ('corrected pixels', 'corrected mask', 'parameter image', 'parameter masks')
+            bad = [nm for nm, a, b in zip(names, cur[:4], base[:4]) if not fusion.bytes_equal(a, b)]
+            if cur[4] != base[4]:
+                bad.append('comparison statistics')
+            if bad:
+                enc = (enc_s if su_s else enc_r)[0]
+                run.fail(case, f'{", ".join(bad)} differ from the north-up {encs[0][0]}-nodata pair although the logical images are the same '
+                         f'({"source" if su_s else "reference"} stored south-up, validity encoded as {enc})',
+                         signature=dict(kind='encoding-dependence-warped', encoding='internal-mask' if enc == 'mask' else str(enc)))
 
 
 def rewrite_leg(run, tmp):
